@@ -1,6 +1,7 @@
 package main
 
 import (
+	"deps.dev/util/resolve"
 	"deps.dev/util/semver"
 
 	"verifharness/sx"
@@ -138,5 +139,63 @@ func init() {
 	// sv_syscompare: (sys a b) -> System.Compare(a,b)
 	register("sv_syscompare", func(a sx.V) sx.V {
 		return sx.Int(sysOf(a.Nth(0)).Compare(a.Nth(1).Str(), a.Nth(2).Str()))
+	})
+}
+
+// sv_sortseq: ((rsys (str...) (perm...))...) -> for each list, in order and in one process,
+// resolve.SortVersions on the list and on a permuted copy; reports ("unsorted" i a b) when two
+// adjacent parsable versions are out of order by the system's own Compare, and ("classes" i k)
+// when the two results differ at position k by more than an equivalence.
+func init() {
+	register("sv_sortseq", func(a sx.V) sx.V {
+		var out []sx.V
+		for li, l := range a.List() {
+			rsys := resolveSystem(l.Nth(0).Int())
+			ssys := rsys.Semver()
+			mk := func(strs []sx.V) []resolve.Version {
+				var vs []resolve.Version
+				for _, s := range strs {
+					vs = append(vs, resolve.Version{VersionKey: resolve.VersionKey{
+						PackageKey:  resolve.PackageKey{System: rsys, Name: "p"},
+						VersionType: resolve.Concrete, Version: s.Str()}})
+				}
+				return vs
+			}
+			// C01 is about versions that parse in the system: others are dropped here
+			var strs []sx.V
+			for _, s := range l.Nth(1).List() {
+				if _, err := ssys.Parse(s.Str()); err == nil {
+					strs = append(strs, s)
+				}
+			}
+			v1 := mk(strs)
+			perm := l.Nth(2).List()
+			shuffled := append([]sx.V(nil), strs...)
+			for i := len(shuffled) - 1; i > 0 && len(perm) > 0; i-- {
+				j := int(perm[i%len(perm)].Int()) % (i + 1)
+				shuffled[i], shuffled[j] = shuffled[j], shuffled[i]
+			}
+			v2 := mk(shuffled)
+			resolve.SortVersions(v1)
+			resolve.SortVersions(v2)
+			for i := 0; i+1 < len(v1); i++ {
+				x, ex := ssys.Parse(v1[i].Version)
+				y, ey := ssys.Parse(v1[i+1].Version)
+				if ex == nil && ey == nil && x.Compare(y) > 0 {
+					out = append(out, sx.L(sx.Sym("unsorted"), sx.Int(li), sx.B(v1[i].Version), sx.B(v1[i+1].Version)))
+				}
+			}
+			for k := range v1 {
+				if v1[k].Version == v2[k].Version {
+					continue
+				}
+				x, ex := ssys.Parse(v1[k].Version)
+				y, ey := ssys.Parse(v2[k].Version)
+				if ex != nil || ey != nil || x.Compare(y) != 0 {
+					out = append(out, sx.L(sx.Sym("classes"), sx.Int(li), sx.B(v1[k].Version), sx.B(v2[k].Version)))
+				}
+			}
+		}
+		return sx.L(out...)
 	})
 }
